@@ -102,10 +102,35 @@ def run_tlc(d, module, cfg=None, env=None, workers=None, timeout=600, args=(), h
     e.pop("JAVA_TOOL_OPTIONS", None)
     e.update(env or {})
     t0 = time.time()
-    p = subprocess.run(cmd, cwd=d, env=e, stdout=subprocess.PIPE, stderr=subprocess.STDOUT, text=True)
-    res = TLCResult(p.returncode, p.stdout, time.time() - t0)
-    with open(os.path.join(d, "tlc_" + re.sub(r"\W", "_", cfg) + ".log"), "w") as f:
-        f.write(" ".join(cmd) + "\n" + p.stdout)
+    # stream the output: single-line PrintT records are capped per tag (a model that flags every state would
+    # otherwise produce hundreds of megabytes), everything else is kept
+    logpath = os.path.join(d, "tlc_" + re.sub(r"\W", "_", cfg) + ".log")
+    kept, counts, dropped = [], {}, 0
+    tagre = re.compile(r'^<<\s*"(\w+)"')
+    dropping = False
+    with open(logpath, "w") as lf:
+        lf.write(" ".join(cmd) + "\n")
+        p = subprocess.Popen(cmd, cwd=d, env=e, stdout=subprocess.PIPE, stderr=subprocess.STDOUT, text=True, bufsize=1 << 20)
+        for line in p.stdout:
+            m = tagre.match(line)
+            if m:
+                n = counts.get(m.group(1), 0) + 1
+                counts[m.group(1)] = n
+                dropping = n > PRINT_CAP
+                if dropping:
+                    dropped += 1
+                    continue
+            elif dropping and line[:1] in (" ", "\t"):
+                continue                      # continuation of a wrapped value that was dropped
+            else:
+                dropping = False
+            kept.append(line)
+            if len(kept) % 4096 == 0:
+                lf.writelines(kept[-4096:])
+        lf.writelines(kept[-(len(kept) % 4096):] if len(kept) % 4096 else [])
+        p.wait()
+    res = TLCResult(p.returncode, "".join(kept), time.time() - t0)
+    res.dropped_prints = dropped
     shutil.rmtree(meta, ignore_errors=True)
     return res
 
@@ -382,6 +407,7 @@ JUDGE_BLOCKS = 64
 
 
 JUDGE_CHUNK = 60000
+PRINT_CAP = 120000        # single-line PrintT records kept per tag and TLC run
 JUDGE_BYTES = 70 * 1000 * 1000
 
 
